@@ -2,6 +2,7 @@ SPECIFICATION Spec
 CHECK_DEADLOCK FALSE
 CONSTANTS
   MaxNodes = 4
+  Keys = {"a"}
 INVARIANT PushDownKeeps
 INVARIANT BlockTransparent
 INVARIANT SiblingUntouched
